@@ -32,13 +32,15 @@ pub struct RouteOracle {
     issued: std::collections::BTreeMap<u32, BTreeSet<Vec<u8>>>,
     /// per endpoint: connection ID -> (connection holding it, sequence number), until retired
     active: std::collections::BTreeMap<u32, std::collections::BTreeMap<Vec<u8>, (u32, u64)>>,
+    /// (connection, sequence number) pairs the peer has retired
+    retired: BTreeSet<(u32, u64)>,
     pub checked: u64,
     pub stale: u64,
 }
 
 impl RouteOracle {
     pub fn new() -> Self {
-        Self { hd_seen: 0, pk_seen: 0, issued: Default::default(), active: Default::default(), checked: 0, stale: 0 }
+        Self { hd_seen: 0, pk_seen: 0, issued: Default::default(), active: Default::default(), retired: Default::default(), checked: 0, stale: 0 }
     }
 }
 
@@ -62,6 +64,7 @@ impl Oracle for RouteOracle {
                         for f in crate::wire::frames(&p.payload).0 {
                             if let crate::wire::Frame::RetireConnectionId { seq } = f {
                                 self.active.entry(node).or_default().retain(|_, (o, s)| !(*o == p.inc && *s == seq));
+                                self.retired.insert((p.inc, seq));
                             }
                         }
                     }
@@ -75,7 +78,11 @@ impl Oracle for RouteOracle {
                 }
                 for f in crate::wire::frames(&p.payload).0 {
                     if let crate::wire::Frame::NewConnectionId { cid, seq, .. } = f {
-                        fresh.push((cid, seq));
+                        // (a lost NEW_CONNECTION_ID frame is sent again even when the peer has
+                        // retired that sequence number meanwhile: not an issuance)
+                        if !self.retired.contains(&(p.inc, seq)) {
+                            fresh.push((cid, seq));
+                        }
                     }
                 }
                 for (cid, seq) in fresh {
@@ -198,6 +205,14 @@ impl Scenario for IsoScen {
                     w.conns[target as usize].closed_locally_at = Some(w.now);
                     self.b.wl.mark_closed(target);
                     self.closed_keys.insert(key);
+                    if !by_client && w.conns[key as usize].conn.is_handshaking() {
+                        // The client may never learn of it (the close can be lost, and once the
+                        // server has forgotten the connection a retransmitted Initial creates a
+                        // second one whose packets the client, already bound to the first one's
+                        // source CID, must discard): without an idle timeout it then retransmits
+                        // for ever. Nothing is expected of that pair any more.
+                        self.b.wl.unchecked.insert(key);
+                    }
                     w.faults.hit("app_close");
                 }
                 Act::Connect { client } => {
